@@ -317,7 +317,7 @@ class Plan:
         text = text.replace('\n} // verus!\nfn main() {}', '\n' + probe + '\n} // verus!\nfn main() {}')
         tags = re.findall(r'// @(?:obl|inv|thm) (\S+)', text)
         self.vunits.append(dict(name=name, text=text, tags=tags, functions=list(u.functions),
-                                assumed=list(u.assumed)))
+                                assumed=list(u.assumed), anchors=dict(getattr(u, 'anchors', {}))))
 
     def add_text_unit(self, name, text, functions=(), assumed=()):
         tags = re.findall(r'// @(?:obl|inv|thm) (\S+)', text)
@@ -331,7 +331,7 @@ def known_findings():
     return []
 
 
-def execute(prop, plan, tier, seed, expinfo, t_start):
+def execute(prop, plan, tier, seed, expinfo, t_start, exp=None):
     workdir = os.path.join(WORK, 'run_%s_%d' % (prop, os.getpid()))
     shutil.rmtree(workdir, ignore_errors=True)
     os.makedirs(workdir)
@@ -557,6 +557,22 @@ def execute(prop, plan, tier, seed, expinfo, t_start):
         rp = os.path.join(rdir, '%s_%d.json' % (prop, int(time.time())))
         import replay
         outcome = replay.attempt(prop, reported, workdir, seed)
+        if exp is not None and not os.environ.get('VEKVERIF_NO_DIFF_REPLAY') and any(v.get('backend') == 'verus' for v in reported):
+            # differential replay of refuted Verus obligations on the real code (HEAD vs working tree); best effort
+            try:
+                import replay_diff
+                anchors = {}
+                for vu in plan.vunits:
+                    anchors.update(vu.get('anchors', {}))
+                dres = replay_diff.attempt(prop, reported, anchors, exp, REPO, workdir)
+                outcome['details'] += dres
+                if any(d.get('found') for d in dres):
+                    outcome['failing_input_found'] = True
+                    first = [d for d in dres if d.get('found')][0]
+                    log('  failing input (differential replay): %s  input %s  HEAD %s  now %s'
+                        % (first.get('call'), first.get('input', '')[:300], first.get('result_at_HEAD', '')[:200], first.get('result_now', '')[:200]))
+            except Exception as e:  # replay never changes the verdict
+                outcome['details'].append(dict(found=False, reason='differential replay failed: %r' % e))
         with open(rp, 'w') as f:
             json.dump(dict(property=prop, tree_hash=expinfo.get('tree_hash'), violations=reported,
                            replay=outcome), f, indent=1, default=str)
